@@ -1,5 +1,6 @@
 import NTV.Model.Resultant
 import NTV.Proofs.Lemmas.GcdShape
+import NTV.Proofs.Lemmas.GcdDvd
 import Mathlib.Algebra.Polynomial.Basic
 import Mathlib.Tactic
 /-! # C10 — gcd in ℤ[x]. -/
@@ -28,5 +29,35 @@ theorem result_shape_partial (f g r : List Int) (hf : f ≠ []) (hg : g ≠ []) 
     ∃ pp : List Int, ∃ d : Int, d = (Int.gcd (contPP f).1 (contPP g).1 : Int) ∧ 0 < d ∧
       toPoly r = C d * toPoly pp ∧ 0 < lc pp ∧ Canon pp ∧
       (∀ e : Int, (∀ c ∈ pp, e ∣ c) → e ∣ 1) := gcd_shape f g r hf hg hcf hcg h
+
+/-- C10, partial (under the exactness flag of the model, asserted on every explored case): for
+non-zero canonical f, g the returned polynomial is a greatest common divisor of f and g in ℤ[x]: it
+divides both, and every common divisor in ℤ[x] divides it. Together with `result_shape_partial`
+(positive leading coefficient) this determines it uniquely. -/
+theorem is_gcd_partial (f g r : List Int) (hf : f ≠ []) (hg : g ≠ []) (hcf : Canon f) (hcg : Canon g)
+    (h : resultantSmartGcdE f g = some (.ok (r, true))) :
+    toPoly r ∣ toPoly f ∧ toPoly r ∣ toPoly g ∧
+    ∀ e : ℤ[X], e ∣ toPoly f → e ∣ toPoly g → e ∣ toPoly r :=
+  ⟨(gcd_dvd f g r hf hg hcf hcg h).1, (gcd_dvd f g r hf hg hcf hcg h).2,
+   fun e h1 h2 => gcd_greatest f g r hf hg hcf hcg h e h1 h2⟩
+
+/-- uniqueness: two lists satisfying the two partial theorems represent the same polynomial -/
+theorem gcd_unique (f g : ℤ[X]) (r s : ℤ[X]) (hr : r ∣ f ∧ r ∣ g ∧ ∀ e, e ∣ f → e ∣ g → e ∣ r)
+    (hs : s ∣ f ∧ s ∣ g ∧ ∀ e, e ∣ f → e ∣ g → e ∣ s)
+    (hrl : 0 < r.leadingCoeff) (hsl : 0 < s.leadingCoeff) : r = s := by
+  have h1 : r ∣ s := hs.2.2 r hr.1 hr.2.1
+  have h2 : s ∣ r := hr.2.2 s hs.1 hs.2.1
+  obtain ⟨u, hu⟩ := associated_of_dvd_dvd h1 h2
+  obtain ⟨c, hc, hcu⟩ := Polynomial.isUnit_iff.mp u.isUnit
+  rw [← hcu] at hu
+  rcases Int.isUnit_iff.mp hc with rfl | rfl
+  · simpa using hu
+  · exfalso
+    have : s = - r := by rw [← hu]; simp
+    rw [this, leadingCoeff_neg] at hsl
+    omega
+
+/-- non-vacuity: an explicit pair on which the routine runs with the flag set -/
+example : resultantSmartGcdE [-2, 0, 2] [2, 4, 2] = some (.ok ([2, 2], true)) := by decide +kernel
 
 end NTV.C10
